@@ -628,6 +628,17 @@ func checkC19Draw(c *Ctx, p *Prog) {
 			if s, isC := constString(content); !isC || s != "" {
 				return
 			}
+			// the column that is emptied stays below the grid's width: a test `column < t.w` on the very
+			// value passed (a bound taken from a clamp to the last valid index stops one column short)
+			col := webDrawColumn(in)
+			inGrid := false
+			if col != nil {
+				for _, a := range guardsAt(in.Block()) {
+					if (a.L == valName(col) && a.Op == "<" && a.R == "t.w") || (a.L == "t.w" && a.Op == ">" && a.R == valName(col)) {
+						inGrid = true
+					}
+				}
+			}
 			for h, body := range loops {
 				if !body[in.Block()] {
 					continue
@@ -635,7 +646,11 @@ func checkC19Draw(c *Ctx, p *Prog) {
 				// the loop test compares the counter with the width
 				if iff, isIf := h.Instrs[len(h.Instrs)-1].(*ssa.If); isIf {
 					if dependsOn(iff.Cond, derefCellOrSelf(width), 4) {
-						ok, detail = true, "covered columns x+1 .. x+width-1 are emptied right after the wide cell is painted"
+						if inGrid {
+							ok, detail = true, "covered columns x+1 .. x+width-1 below the grid's width are emptied right after the wide cell is painted"
+						} else {
+							detail = "the emptied column is not tested against the grid's width (column < t.w)"
+						}
 					}
 				}
 			}
@@ -762,4 +777,29 @@ func webDrawContent(in ssa.Instruction) (ssa.Value, bool) {
 		}
 	})
 	return content, found
+}
+
+// webDrawColumn: the column argument of a drawCell emission (direct call or through the helper).
+func webDrawColumn(in ssa.Instruction) ssa.Value {
+	cc := callCommon(in)
+	if cc == nil {
+		return nil
+	}
+	if calleeName(cc) == "(syscall/js.Value).Call" && len(cc.Args) >= 3 {
+		if n, vals, ok := varargCount(cc.Args[2]); ok && n >= 1 && vals[0] != nil {
+			v := vals[0]
+			if mi, isMI := v.(*ssa.MakeInterface); isMI {
+				v = mi.X
+			}
+			return v
+		}
+		return nil
+	}
+	// helper: putCell(x, y, …): the first int argument
+	for _, a := range cc.Args {
+		if bt, ok := a.Type().Underlying().(*types.Basic); ok && bt.Kind() == types.Int {
+			return a
+		}
+	}
+	return nil
 }
